@@ -205,7 +205,7 @@ class Check:
         self.statements = statements
         # thorough tier: re-check the compiled proofs with the independent checker
         if self.tier == "thorough" and not getattr(self, "skip_coqchk", False):
-            rc2, out2, dt2 = sh(["coqchk", "-silent", "-o", "-Q", os.path.join(COQ, "theories"), "Clarabel", mod], timeout=3000, cwd=COQ)
+            rc2, out2, dt2 = sh(["coqchk", "-silent", "-o", "-Q", os.path.join(COQ, "theories"), "Clarabel", mod], timeout=1800, cwd=COQ)
             m = re.search(r"\* Axioms:(.*?)\n\s*\n\* Constants/Inductives relying on type-in-type:(.*?)\n\s*\n\* Constants/Inductives relying on unsafe \(co\)fixpoints:(.*?)\n\s*\n\* Inductives whose positivity is assumed:(.*?)\n", out2, re.S)
             info = {"module": mod, "rc": rc2, "seconds": round(dt2, 1)}
             if m:
@@ -224,7 +224,7 @@ class Check:
                 # Interval / Coquelicot closure of C14 takes tens of minutes): recorded, not a failure -
                 # the proofs themselves were compiled and audited above
                 info["timed_out"] = True
-                self.notes.append("coqchk on %s did not finish within %d s (recorded only)" % (mod, 3000))
+                self.notes.append("coqchk on %s did not finish within %d s (recorded only)" % (mod, 1800))
             elif rc2 != 0:
                 problems.append("coqchk failed on %s: %s" % (mod, out2[-600:]))
             self.cov.setdefault("coqchk", []).append(info)
